@@ -68,8 +68,8 @@ var (
 	tier = flag.String("tier", envOr("VERIF_TIER", "quick"), "quick|thorough")
 	seed = flag.Int64("seed", envInt("VERIF_SEED", 1), "PRNG seed")
 	ev   = flag.String("evidence", "", "evidence file (default /verif/evidence/<id>.json)")
-	rd   = flag.String("replays", "/verif/replays", "replay dir")
-	kf   = flag.String("known", "/verif/known_findings.json", "known findings file")
+	rd   = flag.String("replays", Home()+"/replays", "replay dir")
+	kf   = flag.String("known", Home()+"/known_findings.json", "known findings file")
 )
 
 func Start(id, level string) *Run {
@@ -77,7 +77,7 @@ func Start(id, level string) *Run {
 		flag.Parse()
 	}
 	if *ev == "" {
-		*ev = "/verif/evidence/" + id + ".json"
+		*ev = Home() + "/evidence/" + id + ".json"
 	}
 	if *tier != "quick" && *tier != "thorough" {
 		*tier = "quick"
@@ -103,6 +103,9 @@ func Start(id, level string) *Run {
 	_ = os.MkdirAll(r.replayDir, 0o755)
 	return r
 }
+
+// Home is the /verif tree the running check belongs to (VERIF_HOME is exported by bin/check).
+func Home() string { return envOr("VERIF_HOME", "/verif") }
 
 func envOr(k, d string) string {
 	if v := os.Getenv(k); v != "" {
